@@ -377,3 +377,41 @@ Proof.
       cbn [andb]; lia.
   - intros u Hu. destruct (Z.leb_spec 0 u), (Z.ltb_spec u 2); cbn [andb]; lia.
 Qed.
+
+(* ================================================================== the public wrapper joint_counts *)
+Theorem mi_frame_order_invariant_two X Y X' Y' na nb jc :
+  joint_counts X (Some Y) (Some na) (Some nb) = Some jc ->
+  length X' = length Y' -> Permutation (combine X Y) (combine X' Y') ->
+  exists jc', joint_counts X' (Some Y') (Some na) (Some nb) = Some jc' /\
+    forall a b, (a < width X)%nat -> (b < width Y)%nat ->
+      mutual_information jc' a b = mutual_information jc a b.
+Proof.
+  exact (mi_frame_order_invariant serial_events serial_events X Y X' Y' na nb jc
+           serial_schedule_ok serial_schedule_ok).
+Qed.
+
+Theorem mi_frame_order_invariant_self X X' n ny jc :
+  joint_counts X None (Some n) ny = Some jc -> Permutation X X' ->
+  exists jc', joint_counts X' None (Some n) ny = Some jc' /\
+    forall a b, (a < width X)%nat -> (b < width X)%nat ->
+      mutual_information jc' a b = mutual_information jc a b.
+Proof.
+  intros E Hp.
+  apply (mi_frame_order_invariant serial_events serial_events X X X' X' n n jc
+           serial_schedule_ok serial_schedule_ok E eq_refl).
+  rewrite !combine_self. apply Permutation_map. exact Hp.
+Qed.
+
+Theorem mi_relabel_invariant_two X Y na nb jc (s t : Z -> Z) :
+  joint_counts X (Some Y) (Some na) (Some nb) = Some jc -> relabel_ok s na -> relabel_ok t nb ->
+  exists jc', joint_counts (map (map s) X) (Some (map (map t) Y)) (Some na) (Some nb) = Some jc' /\
+    forall a b, (a < width X)%nat -> (b < width Y)%nat ->
+      mutual_information jc' a b = mutual_information jc a b.
+Proof. exact (mi_relabel_e2e serial_events X Y na nb jc s t serial_schedule_ok). Qed.
+
+Theorem mi_relabel_invariant_self X n ny jc (s : Z -> Z) :
+  joint_counts X None (Some n) ny = Some jc -> relabel_ok s n ->
+  exists jc', joint_counts (map (map s) X) None (Some n) ny = Some jc' /\
+    forall a b, (a < width X)%nat -> (b < width X)%nat ->
+      mutual_information jc' a b = mutual_information jc a b.
+Proof. intros E Hs. exact (mi_relabel_e2e serial_events X X n n jc s s serial_schedule_ok E Hs Hs). Qed.
